@@ -51,15 +51,23 @@ pub enum Topo {
     /// one local socket talking to two entry points at once (two UDP remotes / two associations):
     /// the reply has to come back from the entry point the request was sent to
     Shared,
+    /// SOCKS5 only: one local socket, ONE association, alternately talking to two targets that
+    /// have the same host string but different ports (A, B, A)
+    TwoPorts,
+    /// SOCKS5 only: one local socket, ONE association, alternately talking to two targets that
+    /// have different host strings (127.0.0.1 / 127.0.0.2) and the same port
+    TwoHosts,
 }
 
 impl Topo {
-    pub const ALL: [Topo; 3] = [Topo::One, Topo::Three, Topo::Shared];
+    pub const ALL: [Topo; 5] = [Topo::One, Topo::Three, Topo::Shared, Topo::TwoPorts, Topo::TwoHosts];
     pub fn name(self) -> &'static str {
         match self {
             Topo::One => "1-client",
             Topo::Three => "3-clients",
             Topo::Shared => "1-socket-2-entries",
+            Topo::TwoPorts => "1-association-2-targets-same-host",
+            Topo::TwoHosts => "1-association-2-targets-same-port",
         }
     }
     pub fn parse(s: &str) -> Option<Self> {
@@ -84,7 +92,7 @@ impl UdpCase {
         json!({
             "kind": "udp", "entry": self.kind.name(), "payload_len": self.size, "topology": self.topo.name(),
             "exchanges_per_leg": EXCHANGES,
-            "payload_rule": "request(len, leg, seq): len 1 -> [0x40|leg<<4|seq]; len>=2 -> [0xC0|leg, seq, xorshift64* stream]; reply = request XOR 0xA5 bytewise; see c01_udp.rs",
+            "payload_rule": "request(len, leg, seq): len 1 -> [0x40|leg<<4|seq]; len>=2 -> [0xC0|leg, seq, xorshift64* stream]; reply = request XOR mask bytewise, mask 0xA5 for target A and 0x5A for target B; exchange seq goes to target seq%2 in the two-target topologies; see c01_udp.rs",
             "requests_hex": (0..self.legs().len()).map(|l| (0..EXCHANGES).map(|q| { let r = request(self.size, l, q); vcommon::report::hex(&r[..r.len().min(16)]) }).collect::<Vec<_>>()).collect::<Vec<_>>(),
         })
     }
@@ -101,7 +109,19 @@ impl UdpCase {
             (Topo::Three, false) => vec![(0, 0), (1, 0), (2, 0)],
             (Topo::Three, true) => vec![(0, 0), (1, 1), (2, 2)],
             (Topo::Shared, _) => vec![(0, 0), (0, 1)],
+            (Topo::TwoPorts | Topo::TwoHosts, _) => vec![(0, 0)],
         }
+    }
+    /// Is this point part of the matrix? (the two-target topologies need a per-datagram destination)
+    pub fn valid(&self) -> bool {
+        !matches!(self.topo, Topo::TwoPorts | Topo::TwoHosts) || self.kind.socks()
+    }
+    pub fn n_targets(&self) -> usize {
+        if matches!(self.topo, Topo::TwoPorts | Topo::TwoHosts) { 2 } else { 1 }
+    }
+    /// Which target exchange `seq` of a leg is addressed to (A, B, A for the two-target topologies).
+    pub fn target_idx(&self, _leg: usize, seq: usize) -> usize {
+        if self.n_targets() == 2 { seq % 2 } else { 0 }
     }
 }
 
@@ -124,8 +144,11 @@ pub fn request(len: usize, leg: usize, seq: usize) -> Vec<u8> {
     }
 }
 
-pub fn reply_of(req: &[u8]) -> Vec<u8> {
-    req.iter().map(|b| b ^ 0xA5).collect()
+/// every target answers with its own transformation, so a reply tells which target produced it
+pub const MASKS: [u8; 2] = [0xA5, 0x5A];
+
+pub fn reply_of(req: &[u8], mask: u8) -> Vec<u8> {
+    req.iter().map(|b| b ^ mask).collect()
 }
 
 fn len_class(len: usize) -> String {
@@ -159,7 +182,7 @@ fn lk<T>(m: &Mutex<T>) -> std::sync::MutexGuard<'_, T> {
     m.lock().unwrap_or_else(std::sync::PoisonError::into_inner)
 }
 
-async fn recv_loop(sock: Arc<UdpSocket>, log: Log, note: Arc<Notify>, answer: bool) {
+async fn recv_loop(sock: Arc<UdpSocket>, log: Log, note: Arc<Notify>, answer: Option<u8>) {
     let mut buf = vec![0u8; 65536 + 64];
     loop {
         let Ok((n, src)) = sock.recv_from(&mut buf).await else {
@@ -167,8 +190,8 @@ async fn recv_loop(sock: Arc<UdpSocket>, log: Log, note: Arc<Notify>, answer: bo
             continue;
         };
         let data = buf[..n].to_vec();
-        if answer {
-            let _ = sock.send_to(&reply_of(&data), src).await;
+        if let Some(mask) = answer {
+            let _ = sock.send_to(&reply_of(&data, mask), src).await;
         }
         lk(&log).push((src, data));
         note.notify_waiters();
@@ -220,6 +243,8 @@ fn answered(log: &Log, socks: bool, from: SocketAddr, want: &[u8], seq: usize, b
 
 struct LegResult {
     sent: u64,
+    /// transmissions addressed to each target
+    sent_to: [u64; 2],
     retrans: u64,
     /// exchanges that got an answer (right or wrong)
     completed: usize,
@@ -228,20 +253,23 @@ struct LegResult {
 }
 
 #[allow(clippy::too_many_arguments)]
-async fn run_leg(leg: usize, case: UdpCase, sock: Arc<UdpSocket>, log: Log, note: Arc<Notify>, entry: SocketAddr, target: SocketAddr, domain: Option<String>, short: bool) -> LegResult {
+async fn run_leg(leg: usize, case: UdpCase, sock: Arc<UdpSocket>, log: Log, note: Arc<Notify>, entry: SocketAddr, targets: Vec<(SocketAddr, Option<String>)>, short: bool) -> LegResult {
     let socks = case.kind.socks();
-    let mut res = LegResult { sent: 0, retrans: 0, completed: 0, wrong: 0 };
+    let mut res = LegResult { sent: 0, sent_to: [0; 2], retrans: 0, completed: 0, wrong: 0 };
     let mut earlier: Vec<Vec<u8>> = Vec::new();
     let waits = if short { WAITS_SHORT_MS } else { WAITS_MS };
     for seq in 0..EXCHANGES {
         let req = request(case.size, leg, seq);
-        let want = reply_of(&req);
-        let wire = if socks { proto::build_udp_request(target, domain.as_deref(), &req) } else { req.clone() };
+        let tk = case.target_idx(leg, seq);
+        let (target, domain) = &targets[tk];
+        let want = reply_of(&req, MASKS[tk]);
+        let wire = if socks { proto::build_udp_request(*target, domain.as_deref(), &req) } else { req.clone() };
         let mut ok = None;
         let base = lk(&log).len();
         for (attempt, w) in waits.iter().enumerate() {
             if sock.send_to(&wire, entry).await.is_ok() {
                 res.sent += 1;
+                res.sent_to[tk] += 1;
                 if attempt > 0 {
                     res.retrans += 1;
                 }
@@ -296,14 +324,37 @@ pub async fn run_udp(envr: &Env, case: &UdpCase, deadline_s: u64, short_waits: b
     let n_entries = legs.iter().map(|l| l.1).max().unwrap_or(0) + 1;
 
     // ---- target
-    let tsock = match UdpSocket::bind("127.0.0.1:0").await {
-        Ok(s) => Arc::new(s),
-        Err(e) => return machinery(format!("bind udp target: {e}")),
-    };
-    let target = tsock.local_addr().expect("target addr");
-    let tlog: Log = Arc::new(Mutex::new(Vec::new()));
-    let tnote = Arc::new(Notify::new());
-    let mut tasks = vec![tokio::spawn(recv_loop(tsock.clone(), tlog.clone(), tnote.clone(), true))];
+    if !case.valid() {
+        return machinery(format!("{lab}: not a point of the matrix"));
+    }
+    let n_targets = case.n_targets();
+    let mut tsocks: Vec<Arc<UdpSocket>> = Vec::new();
+    for attempt in 0..50 {
+        tsocks.clear();
+        let a = match UdpSocket::bind("127.0.0.1:0").await {
+            Ok(s) => s,
+            Err(e) => return machinery(format!("bind udp target: {e}")),
+        };
+        let pa = a.local_addr().expect("target addr").port();
+        tsocks.push(Arc::new(a));
+        if n_targets == 2 {
+            // same host string, other port -- or other host string (127.0.0.2), same port
+            let second = if case.topo == Topo::TwoPorts { UdpSocket::bind("127.0.0.1:0").await } else { UdpSocket::bind(("127.0.0.2", pa)).await };
+            match second {
+                Ok(b) => tsocks.push(Arc::new(b)),
+                Err(_) if attempt < 49 => continue,
+                Err(e) => return machinery(format!("bind second udp target: {e}")),
+            }
+        }
+        break;
+    }
+    let target_addrs: Vec<SocketAddr> = tsocks.iter().map(|s| s.local_addr().expect("target addr")).collect();
+    let target = target_addrs[0];
+    let tlogs: Vec<Log> = (0..n_targets).map(|_| Arc::new(Mutex::new(Vec::new()))).collect();
+    let mut tasks = Vec::new();
+    for (k, ts) in tsocks.iter().enumerate() {
+        tasks.push(tokio::spawn(recv_loop(ts.clone(), tlogs[k].clone(), Arc::new(Notify::new()), Some(MASKS[k]))));
+    }
 
     // ---- subject
     let mut leases = Vec::new();
@@ -392,15 +443,29 @@ pub async fn run_udp(envr: &Env, case: &UdpCase, deadline_s: u64, short_waits: b
             };
             let log: Log = Arc::new(Mutex::new(Vec::new()));
             let note = Arc::new(Notify::new());
-            tasks.push(tokio::spawn(recv_loop(s.clone(), log.clone(), note.clone(), false)));
+            tasks.push(tokio::spawn(recv_loop(s.clone(), log.clone(), note.clone(), None)));
             socks_v.push(s);
             logs.push(log);
             notes.push(note);
         }
-        let domain = if case.kind == UKind::SocksDomain { Some(envr.domain.clone()) } else { None };
+        // the host string put into a domain-typed header: the name of 127.0.0.1, resp. the literal
+        // of the second loopback address (no name resolves to it)
+        let targets: Vec<(SocketAddr, Option<String>)> = target_addrs
+            .iter()
+            .map(|a| {
+                let d = if case.kind != UKind::SocksDomain {
+                    None
+                } else if a.ip() == IpAddr::from([127, 0, 0, 1]) {
+                    Some(envr.domain.clone())
+                } else {
+                    Some(a.ip().to_string())
+                };
+                (*a, d)
+            })
+            .collect();
         let mut handles = Vec::new();
         for (l, (si, ei)) in legs.iter().enumerate() {
-            handles.push(tokio::spawn(run_leg(l, case.clone(), socks_v[*si].clone(), logs[*si].clone(), notes[*si].clone(), entry_addrs[*ei], target, domain.clone(), short_waits)));
+            handles.push(tokio::spawn(run_leg(l, case.clone(), socks_v[*si].clone(), logs[*si].clone(), notes[*si].clone(), entry_addrs[*ei], targets.clone(), short_waits)));
         }
         for h in handles {
             leg_results.push(h.await.ok());
@@ -444,19 +509,50 @@ pub async fn run_udp(envr: &Env, case: &UdpCase, deadline_s: u64, short_waits: b
         return UdpOutcome { obs: json!({"failure_keys": keys, "completed": []}), failures, port_race, stats, wall: t0.elapsed() };
     }
 
-    // ---- oracle: the target's log
-    let all_requests: HashSet<Vec<u8>> = (0..legs.len()).flat_map(|l| (0..EXCHANGES).map(move |q| (l, q))).map(|(l, q)| request(case.size, l, q)).collect();
-    let tl = lk(&tlog).clone();
+    // ---- oracle: the targets' logs
+    let all_lq: Vec<(usize, usize)> = (0..legs.len()).flat_map(|l| (0..EXCHANGES).map(move |q| (l, q))).collect();
+    let tl: Vec<(SocketAddr, Vec<u8>)> = tlogs.iter().flat_map(|l| lk(l).clone()).collect();
     let mut sources = HashSet::new();
-    for (src, data) in &tl {
-        stats.requests_at_target += 1;
-        sources.insert(*src);
-        if !all_requests.contains(data) {
-            push(
-                format!("udp.request.corrupt.{fam}.{}", len_class(case.size)),
-                format!("the target received a datagram of {} bytes ({}) that no local client sent (payloads sent have {} bytes)", data.len(), vcommon::report::hex(&data[..data.len().min(24)]), case.size),
-                false,
-            );
+    for (k, tlog) in tlogs.iter().enumerate() {
+        let log_k = lk(tlog).clone();
+        for (src, data) in &log_k {
+            stats.requests_at_target += 1;
+            sources.insert(*src);
+            let for_here = all_lq.iter().any(|(l, q)| case.target_idx(*l, *q) == k && request(case.size, *l, *q) == *data);
+            if for_here {
+                continue;
+            }
+            if let Some((l, q)) = all_lq.iter().find(|(l, q)| request(case.size, *l, *q) == *data) {
+                let to = case.target_idx(*l, *q);
+                push(
+                    format!("udp.request.misdirected.{fam}"),
+                    format!(
+                        "target {k} ({}) received the datagram of exchange {q} of leg {l} ({} bytes), which the client addressed to target {to} ({}): same flow, {}",
+                        target_addrs[k],
+                        data.len(),
+                        target_addrs[to],
+                        if case.topo == Topo::TwoPorts { "same host string, other port" } else { "other host string, same port" }
+                    ),
+                    false,
+                );
+            } else {
+                push(
+                    format!("udp.request.corrupt.{fam}.{}", len_class(case.size)),
+                    format!("target {k} received a datagram of {} bytes ({}) that no local client sent (payloads sent have {} bytes)", data.len(), vcommon::report::hex(&data[..data.len().min(24)]), case.size),
+                    false,
+                );
+            }
+        }
+        // payloads that carry no exchange number (empty ones): at least count
+        if n_targets == 2 {
+            let addressed: u64 = leg_results.iter().flatten().map(|r| r.sent_to[k]).sum();
+            if log_k.len() as u64 > addressed {
+                push(
+                    format!("udp.request.misdirected.{fam}"),
+                    format!("target {k} ({}) received {} datagrams but only {addressed} were addressed to it (the other target, {}, received {})", target_addrs[k], log_k.len(), target_addrs[1 - k], lk(&tlogs[1 - k]).len()),
+                    false,
+                );
+            }
         }
     }
     stats.target_sources = sources.len() as u64;
@@ -469,7 +565,7 @@ pub async fn run_udp(envr: &Env, case: &UdpCase, deadline_s: u64, short_waits: b
         let entries_of_socket: Vec<(usize, usize)> = legs.iter().enumerate().filter(|(_, (s, _))| *s == si).map(|(l, (_, e))| (l, *e)).collect();
         for (src, raw) in lk(log).iter() {
             let Some((leg, _)) = entries_of_socket.iter().find(|(_, e)| entry_addrs[*e] == *src) else {
-                let whose = if entry_addrs.contains(src) { "an entry point this client never sent to" } else if *src == target { "the target itself" } else { "an unknown address" };
+                let whose = if entry_addrs.contains(src) { "an entry point this client never sent to" } else if target_addrs.contains(src) { "the target itself" } else { "an unknown address" };
                 push(
                     format!("udp.reply.wrong-source.{fam}"),
                     format!("local client {si} ({}) received a datagram from {src} ({whose}); it only ever sent to {:?}", local_addrs[si], entries_of_socket.iter().map(|(_, e)| entry_addrs[*e]).collect::<Vec<_>>()),
@@ -502,7 +598,7 @@ pub async fn run_udp(envr: &Env, case: &UdpCase, deadline_s: u64, short_waits: b
                             continue;
                         }
                         match &h.addr {
-                            UdpAddr::Ip(ip) if *ip == target.ip() && h.port == target.port() => stats.socks_header_addr_is_target += 1,
+                            UdpAddr::Ip(ip) if target_addrs.iter().any(|t| *ip == t.ip() && h.port == t.port()) => stats.socks_header_addr_is_target += 1,
                             UdpAddr::Ip(ip) if *ip == local_addrs[si].ip() && h.port == local_addrs[si].port() => stats.socks_header_addr_is_client += 1,
                             _ => stats.socks_header_addr_other += 1,
                         }
@@ -513,11 +609,22 @@ pub async fn run_udp(envr: &Env, case: &UdpCase, deadline_s: u64, short_waits: b
                 raw
             };
             let issued = leg_results[*leg].as_ref().map_or(0, |r| (r.completed + 1).min(EXCHANGES));
-            if (0..issued).any(|q| reply_of(&request(case.size, *leg, q)) == payload) {
+            if (0..issued).any(|q| reply_of(&request(case.size, *leg, q), MASKS[case.target_idx(*leg, q)]) == payload) {
                 stats.replies_verified += 1;
                 continue;
             }
-            let other = (0..legs.len()).flat_map(|l| (0..EXCHANGES).map(move |q| (l, q))).find(|(l, q)| reply_of(&request(case.size, *l, *q)) == payload);
+            if n_targets == 2 && !payload.is_empty() {
+                if let Some(q) = (0..issued).find(|q| reply_of(&request(case.size, *leg, *q), MASKS[1 - case.target_idx(*leg, *q)]) == payload) {
+                    let to = case.target_idx(*leg, q);
+                    push(
+                        format!("udp.reply.from-wrong-target.{fam}"),
+                        format!("local client {si}: exchange {q} was addressed to target {to} ({}) but the reply that came back was produced by target {} ({})", target_addrs[to], 1 - to, target_addrs[1 - to]),
+                        false,
+                    );
+                    continue;
+                }
+            }
+            let other = all_lq.iter().copied().find(|(l, q)| reply_of(&request(case.size, *l, *q), MASKS[case.target_idx(*l, *q)]) == payload);
             match other {
                 Some((l, q)) if l != *leg => push(
                     format!("udp.reply.misdelivered.{fam}"),
@@ -589,7 +696,7 @@ pub fn self_test() -> Result<(), String> {
                 if r.len() != len {
                     return Err("request length".into());
                 }
-                if !seen.insert(r.clone()) || !seen.insert(reply_of(&r)) {
+                if !seen.insert(r.clone()) || !seen.insert(reply_of(&r, MASKS[0])) || !seen.insert(reply_of(&r, MASKS[1])) {
                     return Err(format!("requests/replies of length {len} are not pairwise distinct"));
                 }
             }
